@@ -118,7 +118,11 @@ let smoke init np posts nw waits ny tries =
 
 let () =
   iter_lines (fun line ->
-    match split_ws line with
+    (* a leading @<n> sets errno before the calls under test: neither model nor spec depends on it *)
+    let toks = match split_ws line with
+      | t :: rest when String.length t > 0 && t.[0] = '@' -> rest
+      | l -> l in
+    match toks with
     | ["E"; n] ->
       let e = int_of_string n in
       let m = sname (SemErrnoModel.errno_status (z_of_int e)) in
@@ -149,7 +153,10 @@ let () =
           (match spec_status ints with None -> "blocked" | Some "*" -> "*" | Some x -> "st=" ^ x),
           Printf.sprintf "%d.%d" sec (total mod 1_000_000_000)
         end in
-      Printf.printf "M %s dl=%s || calls=%d same=1 clk=1/0 unexp=-\nS %s dl=%s\n" txt dltxt calls sst sdl
+      (* every sem_timedwait call of one wait gets the same deadline, computed from the first clock reading
+         (model: eintr_retried; spec: TIMEOUT is due at the ORIGINAL deadline however often the wait is interrupted) *)
+      let same = if dl = None then "-" else "1" in
+      Printf.printf "M %s dl=%s same=%s || calls=%d clk=1/0 unexp=-\nS %s dl=%s same=%s\n" txt dltxt same calls sst sdl same
     | ["I"; init; progs; sched] ->
       let (m, s) = lockstep (int_of_string init) (progs_of progs) (String.split_on_char ',' sched) in
       Printf.printf "M %s\nS %s\n" m s
@@ -159,6 +166,39 @@ let () =
       let w = i nw * i waits and p = i np * i posts in
       let s = if w <= i init + p then Printf.sprintf "succ=%d left=%d neg=0 errs=0" w (i init + p - w) else "*" in
       Printf.printf "M %s\nS %s\n" m s
+    | ["N"; r; _] ->
+      let st = sname (SemModel.post_model (kres_of_int (int_of_string r))) in
+      Printf.printf "M st=%s || posts=1 unexp=-\nS %s\n" st (if int_of_string r = 0 then "st=SUCCESS" else "*")
+    | ["V"; v; n] ->
+      (* the wrappers over the ideal semaphore, one call at a time (no logs: a million operations) *)
+      let v = int_of_string v and n = int_of_string n in
+      let rec mk acc k = if k = 0 then acc else mk (Datatypes.S acc) (k - 1) in
+      let count = ref (mk Datatypes.O v) and bad = ref 0 in
+      for _ = 1 to n do
+        match SemModel.kernel_call SemModel.OPost !count false with
+        | Some (c, r) ->
+          count := c;
+          (match SemModel.wrapper SemModel.OPost r with
+           | SemModel.Ret s when sname s = "SUCCESS" -> () | _ -> incr bad)
+        | None -> incr bad
+      done;
+      let taken = ref 0 and last = ref "none" and go = ref true in
+      while !go do
+        match SemModel.kernel_call SemModel.OTry !count false with
+        | Some (c, r) ->
+          count := c;
+          (match SemModel.wrapper SemModel.OTry r with
+           | SemModel.Ret s -> last := sname s; if !last = "SUCCESS" then incr taken else go := false
+           | SemModel.Again -> ())
+        | None -> go := false
+      done;
+      Printf.printf "M bad_posts=%d taken=%d then=%s\nS bad_posts=0 taken=%d then=UNAVAILABLE\n" !bad !taken !last (v + n)
+    | ["Z"; _; _] ->
+      (* sleeping timed waiter, signalled again and again, then its deadline passes *)
+      let open SemModel in
+      let st = run [Run O; Sig O; Sig O; Sig O; Expire O] (init_sys O [[OTimed]]) in
+      let res = match (List.hd st.s_threads).t_log with ((_, s), _) :: _ -> sname s | [] -> "none" in
+      Printf.printf "M st=%s early=0 late=0\nS st=TIMEOUT early=0 late=0\n" res
     | ["Q"; _] ->
       (* the competitor's try_wait takes the only unit, then the timed wait expires on a zero count *)
       let open SemModel in
